@@ -376,6 +376,17 @@ WakeOK(r) == r.pend => (r.wint /\ r.kfull) \/ (r.winblocked /\ r.rint)
 ReaderOK(e) ==
   /\ parked[e] # 0 => Buffered(<<parked[e], DirRead(e)>>) >= B
   /\ (inK[e] # <<>> /\ parked[e] = 0) => ("R" \in event[e] /\ "R" \in interest[e])
+\* The same heart, in the fields a mux_ready_exit snapshot of the real session can be projected to (it cannot
+\* see kfull): the writer of pending output wants WRITABLE, or waits for a window with its connection being
+\* read, or its connection is not up yet / already going down; the last disjunct is the open deviation.
+ParkRecOK(r) == \/ r.wint
+                \/ r.winblocked /\ r.rint
+                \/ r.handshake \/ r.closing \/ r.dead
+                \/ Dev("HolBlocking") /\ r.winblocked /\ r.rparked
+ModelParkRec(p) == [wint |-> "W" \in interest[WrEp(p)], winblocked |-> WindowBlocked(p), rint |-> "R" \in interest[WrEp(p)],
+                    handshake |-> FALSE, closing |-> FALSE, dead |-> FALSE, rparked |-> parked[WrEp(p)] # 0]
+Park_OK == (SozuParked /\ ~killed) => \A p \in Pipes : Pending(p) => ParkRecOK(ModelParkRec(p))
+
 Quiescent_OK == (SozuParked /\ ~killed) => (\A p \in Pipes : WakeOK(ParkRec(p))) /\ (\A e \in Endpoints : ReaderOK(e))
 
 ---------------------------------------------------------------------------
